@@ -217,6 +217,21 @@ func checkC02(c *Ctx) {
 		var b1 strings.Builder
 		dumpIface(&b1, v)
 		before := b1.String() + "|" + strings.Join(strs, "\x00")
+		if cp && i%2 == 1 {
+			// copying mode: the document itself must not depend on the input buffer any more
+			d1, e1 := dumpDoc(out.PJ)
+			saved := append([]byte{}, buf...)
+			for k := range buf {
+				buf[k] = '#'
+			}
+			d2, e2 := dumpDoc(out.PJ)
+			copy(buf, saved)
+			if e1 != nil || e2 != nil || d1 != d2 {
+				c.Violate("document", "a document parsed with the default options (copying) changed when the input buffer was overwritten", "default-copy-after-nocopy",
+					map[string]interface{}{"doc_hex": fmt.Sprintf("%x", doc), "doc_text": printable(doc), "before": trunc(d1, 300), "after": trunc(d2, 300)})
+				break
+			}
+		}
 		// reuse the parser for another document of about the same size, then scribble over the input
 		other := genDoc(r, &GenOpts{MaxDepth: 3, MaxFan: 4, TopFan: 3 + r.Intn(6), WS: r.Intn(3)})
 		if cp {
